@@ -35,3 +35,22 @@ Theorem C03_masks_keep_dotmatch : forall f,
   /\ has f DOTMATCH = Z.testbit f 6.
 Proof. exact (fun f => conj (Bits.testbit_land_mask_6 f) (conj (Bits.testbit_lor_DOTMATCH f) (Bits.has_DOTMATCH f))). Qed.
 Print Assumptions C03_masks_keep_dotmatch.
+
+(* ---- on the flat fragments proved end to end (C01Flat / C02Path): a leading dot needs a written dot ------------------
+   fnmatch mode: the documented meaning C01Flat.Den without DOTMATCH holds of a name starting with `.` only if the pattern
+   starts with a written `.`; path mode: a piece starting with `.` is matched only if its segment starts with a written
+   `.`, or with a `*` that consumes nothing (the dot then belongs to what follows: finding C03-star-guard-inside-optional) -
+   never by a segment-initial `?`, never by the characters a segment-initial `*` consumes. *)
+From WC.Proofs Require C01Flat C02Path.
+
+Theorem C03_flat_leading_dot : forall ts n',
+  C01Flat.Den false true ts (46%N :: n') -> exists c r, (ts = C01Flat.TLit c :: r \/ ts = C01Flat.TEsc c :: r) /\ c = 46%N.
+Proof. exact C01Flat.flat_leading_dot. Qed.
+Print Assumptions C03_flat_leading_dot.
+
+Theorem C03_path_hidden_piece : forall ts (s' : str),
+  C02Path.DenSeg false true ts (46%N :: s') ->
+  (exists r, ts = C01Flat.TLit 46%N :: r) \/ (exists c r, ts = C01Flat.TEsc c :: r /\ c = 46%N) \/
+  (exists r, ts = C01Flat.TStar :: r /\ C02Path.DenSeg false false r (46%N :: s')).
+Proof. exact C02Path.hidden_piece_needs_written_dot. Qed.
+Print Assumptions C03_path_hidden_piece.
